@@ -929,6 +929,11 @@ def _read_flow_obs(path, prefix, c, dtr_cnfg=1, version="openQCD", obspos=0, sum
                 else:
                     nfl = 1
                 iobs = 8 * nfl  # number of flow observables calculated
+                flow_pos = obspos
+                if nfl == 1:
+                    if zeuthen:
+                        raise Exception('The file ' + file + ' does not contain Zeuthen flow data.')
+                    flow_pos = obspos - 8  # only the Wilson flow has been measured, its observables are the first eight
 
                 while True:
                     t = fp.read(4)
@@ -941,7 +946,7 @@ def _read_flow_obs(path, prefix, c, dtr_cnfg=1, version="openQCD", obspos=0, sum
                             t = fp.read(8 * tmax)
                             if len(t) < 8 * tmax:
                                 raise Exception('Incomplete record for trajectory %d in file %s' % (traj_list[-1], file))
-                            if (i == obspos):  # determines the flow observable -> i=0 <-> Zeuthen flow
+                            if (i == flow_pos):  # determines the flow observable -> i=0 <-> Zeuthen flow
                                 Q.append(struct.unpack('d' * tmax, t))
 
             else:
